@@ -390,3 +390,222 @@ class Flyer(Base):
 
     def stop(self, success=True):
         self.world.log(self.name, "stop", success)
+
+
+class CfgSig(Sig):
+    """Subscribable + Readable + Configurable + Movable signal (spec key ``cfgsigs``; used by C16).
+
+    Like :class:`Sig` with a configuration dict reported through ``read_configuration`` (same
+    format as :class:`Det`), ``configure(d)`` and a ``set(value)`` that performs a ``put`` (so a
+    plan can make a monitored signal update with an ordinary ``set`` message) and returns a
+    finished status."""
+
+    def __init__(self, world, name, value=0.0, cfg=None):
+        super().__init__(world, name, value)
+        self.cfg = dict(cfg or {})
+
+    read_configuration = Det.read_configuration
+    describe_configuration = Det.describe_configuration
+    configure = Det.configure
+
+    def set(self, value, **kw):
+        self.world.maybe_raise(self.name, "set")
+        self.put(value)
+        st = self.world.status(self.name, "set", 0.0, None)
+        self.world.log(self.name, "set", (value, st.sid))
+        return st
+
+
+class StreamDet(Base):
+    """Detector writing frames into a 'file': Collectable + WritesStreamAssets (+ Flyable, and
+    Triggerable/Readable for step scans), modelled on ophyd-async's StandardDetector.
+
+    Fly mode (``collect``): ``frames`` is the progression of the written-frame count, one entry per
+    *query* (``get_index()`` or ``collect_asset_docs(index=None)``); past its end the last value is
+    repeated.  ``collect_asset_docs(index)`` yields one ``stream_resource`` per fly data key the first
+    time ``index > 0`` and then, if ``index`` is beyond what was already published, one
+    ``stream_datum`` per key with ``indices = [published, index)`` (blindly trusting ``index``, as
+    ophyd-async does).  Data keys: ``<name>_fly`` (or ``keys``), all ``external: "STREAM:"``.
+
+    ``pages=True``: the device is EventPageCollectable *instead of* WritesStreamAssets (no
+    ``get_index``; the engine calls ``collect_asset_docs()`` without an index): ``collect_pages()``
+    yields one page with as many rows of the internal key ``<name>_n`` as frames were published by
+    the preceding ``collect_asset_docs``.
+
+    Step mode (``trigger`` + ``read`` inside create/save): ``trigger()`` takes one frame into a
+    separate step file; the following ``collect_asset_docs(None)`` publishes it under the data key
+    ``<name>_step`` with ``indices = [k, k+1)``.  ``read()`` returns the internal key ``<name>_val``
+    when ``scalar=True`` and nothing otherwise.  Plans must not put a single-detector ``collect`` of
+    this device between its ``trigger`` and ``read``.
+    """
+
+    def __init__(self, world, name, frames=(), keys=None, pages=False, scalar=False, delay=0.0, trigger_delay=0.0, async_=False):
+        super().__init__(world, name)
+        self.frames = [int(x) for x in frames]
+        self.keys = list(keys or [f"{name}_fly"])
+        self.pages = bool(pages)
+        self.scalar = bool(scalar)
+        self.delay = delay
+        self.trigger_delay = trigger_delay
+        self.async_ = bool(async_)
+        self._pos = 0  # next entry of the progression
+        self._published = 0  # fly frames already announced by stream_datum documents
+        self._fly_res = None  # {key: stream_resource uid}
+        self._step_res = None
+        self._step_taken = 0
+        self._step_pending = False
+        self._last_width = 0
+        self._n_datum = 0
+        if self.pages:
+            self.collect_pages = self._collect_pages
+        elif self.async_:
+            self.get_index = self._aget_index
+            self.collect_asset_docs = self._acollect_asset_docs
+        else:
+            self.get_index = self._get_index
+        self.hints = {"fields": []}
+
+    # ---- written-frame counter
+    def _query(self):
+        if not self.frames:
+            return 0
+        v = self.frames[min(self._pos, len(self.frames) - 1)]
+        self._pos += 1
+        return v
+
+    def _get_index(self):
+        v = self._query()
+        self.world.log(self.name, "get_index", v)
+        return v
+
+    async def _aget_index(self):
+        return self._get_index()
+
+    # ---- Flyable
+    def kickoff(self):
+        f = self.world.maybe_raise(self.name, "kickoff")
+        st = self.world.status(self.name, "kickoff", 0.0, f)
+        self.world.log(self.name, "kickoff", st.sid)
+        return st
+
+    def complete(self):
+        f = self.world.maybe_raise(self.name, "complete")
+        st = self.world.status(self.name, "complete", self.delay, f)
+        self.world.log(self.name, "complete", st.sid)
+        return st
+
+    # ---- Collectable
+    def _dk(self, external=True):
+        dk = {"source": f"vf:{self.name}", "dtype": "array" if external else "number", "shape": [2, 2] if external else []}
+        if external:
+            dk["external"] = "STREAM:"
+        return dk
+
+    def describe_collect(self):
+        self.world.log(self.name, "describe_collect")
+        d = {k: self._dk() for k in self.keys}
+        if self.pages:
+            d[f"{self.name}_n"] = self._dk(False)
+        return d
+
+    def _resource(self, key):
+        uid = f"{self.name}/{key}/{self.world.new_id()}"
+        return uid, {
+            "uid": uid,
+            "data_key": key,
+            "mimetype": "application/x-hdf5",
+            "uri": f"file://localhost/nonexistent/{self.name}.h5",
+            "parameters": {"dataset": f"/{key}/data"},
+        }
+
+    def _datum(self, res_uid, start, stop):
+        self._n_datum += 1
+        return {
+            "uid": f"{res_uid}/{self._n_datum}",
+            "stream_resource": res_uid,
+            "descriptor": "",
+            "indices": {"start": int(start), "stop": int(stop)},
+            "seq_nums": {"start": 0, "stop": 0},
+        }
+
+    def collect_asset_docs(self, index=None):
+        self.world.maybe_raise(self.name, "collect_asset_docs")
+        if index is None and self._step_pending:
+            self._step_pending = False
+            key = f"{self.name}_step"
+            if self._step_res is None:
+                uid, doc = self._resource(key)
+                self._step_res = uid
+                yield "stream_resource", doc
+            k = self._step_taken - 1
+            self.world.log(self.name, "collect_asset_docs", ("step", k, k + 1))
+            yield "stream_datum", self._datum(self._step_res, k, k + 1)
+            return
+        asked = index
+        if index is None:
+            index = self._query()
+        index = int(index)
+        self.world.log(self.name, "collect_asset_docs", ("fly", asked, self._published, index))
+        self._last_width = 0
+        if index > 0 and self._fly_res is None:
+            self._fly_res = {}
+            for key in self.keys:
+                uid, doc = self._resource(key)
+                self._fly_res[key] = uid
+                yield "stream_resource", doc
+        if index > self._published:
+            for key in self.keys:
+                yield "stream_datum", self._datum(self._fly_res[key], self._published, index)
+            self._last_width = index - self._published
+            self._published = index
+
+    async def _acollect_asset_docs(self, index=None):
+        for item in StreamDet.collect_asset_docs(self, index):
+            yield item
+
+    def _collect_pages(self):
+        self.world.log(self.name, "collect_pages", self._last_width)
+        n = self._last_width
+        self._last_width = 0
+        t = self.world.vtime()
+        if n:
+            base = self._published - n
+            yield {
+                "data": {f"{self.name}_n": [float(base + i) for i in range(n)]},
+                "timestamps": {f"{self.name}_n": [t] * n},
+                "time": [t] * n,
+            }
+
+    # ---- step mode: Triggerable + Readable
+    def trigger(self):
+        f = self.world.maybe_raise(self.name, "trigger")
+        self._step_taken += 1
+        self._step_pending = True
+        st = self.world.status(self.name, "trigger", self.trigger_delay, f)
+        self.world.log(self.name, "trigger", st.sid)
+        return st
+
+    def read(self):
+        self.world.maybe_raise(self.name, "read")
+        r = {}
+        if self.scalar:
+            r[f"{self.name}_val"] = {"value": float(self._step_taken), "timestamp": self.world.vtime()}
+        rid = self.world.new_id()
+        self.world.results[rid] = r
+        self.world.log(self.name, "read", rid)
+        return r
+
+    def describe(self):
+        d = {f"{self.name}_step": self._dk()}
+        if self.scalar:
+            d[f"{self.name}_val"] = self._dk(False)
+        return d
+
+    def read_configuration(self):
+        return {}
+
+    def describe_configuration(self):
+        return {}
+
+    def stop(self, success=True):
+        self.world.log(self.name, "stop", success)
